@@ -86,6 +86,16 @@ def wfB (t : Tmpl) : Bool :=
   (atomsOf t.segs).all (fun p => match p with | .lit l => wellEscapedB (litText l) | _ => true) &&
   wellEscapedB t.verb
 
+/-- executable form of `Tmpl.ShapeOk` (ProofsResolve.lean): what the parser guarantees about its output;
+    monitored on every AST the real parser returns, because `C03_compiled_matcher` assumes it -/
+def shapeB (t : Tmpl) : Bool :=
+  t.segs.all fun s => match s with
+    | .plain (.lit l) => !l.isEmpty
+    | .plain _ => true
+    | .var x ps => !x.isEmpty && x != eof && !ps.isEmpty && ps.all fun p => match p with
+      | .lit l => !l.isEmpty
+      | _ => true
+
 /-- tspec → (intended AST if given) -/
 def parseTSpec (s : String) : Option (Option Tmpl) :=
   match s.toList with
@@ -122,7 +132,8 @@ def handleMatch (tspec comps verb : String) (out : List String) : String :=
         let impl := s!"{opsS} {poolS} {verbS} {fieldsS} {patS} {resS}"
         -- spec judgement: for a well-formed template the match result is fixed by `Matches`
         -- (C03_matcher: matchTmpl decides it), whatever the compiled form looks like
-        if intended.isSome ∧ intended ≠ some t then s!"DIFF model=parse:{showAst t}"
+        if ¬ shapeB t then s!"DIFF model=shape (the parser returned an AST outside the proved domain: {showAst t})"
+        else if intended.isSome ∧ intended ≠ some t then s!"DIFF model=parse:{showAst t}"
         else if wfB t ∧ absRes ≠ resS then s!"VIOL match impl={resS} spec={absRes}"
         else if absRes ≠ modelRes then s!"DIFF model-internal compiled={modelRes} ast={absRes}"
         else if impl ≠ model then s!"DIFF model={model}"
@@ -150,14 +161,16 @@ def handleUrl (kind target : String) (out : List String) : String :=
         | some u => s!"ok {toHex u.path} {toHex u.rawPath} {toHex (escapedPath u)}"
       let impl := " ".intercalate out
       -- spec: the path RouteHTTP routes on is the request target's path text, untouched
-      let specOk : Bool := match m, out with
-        | some _, [_, _, rp, ep] => (if rp ≠ "x" then rp else ep) == toHex (beforeQuery raw)
-        | _, _ => true
+      let specOk : Bool := match raw, m, out with
+        | 47 :: _, some _, [_, _, rp, ep] => (if rp ≠ "x" then rp else ep) == toHex (beforeQuery raw)
+        | _, _, _ => true
       if ¬ specOk then s!"VIOL url path choice differs from the target's path text {toHex (beforeQuery raw)}"
       else if impl ≠ model then s!"DIFF model={model}"
       else match m with
         | none => "OK b=u-error"
-        | some u => if u.rawPath = [] then "OK nt b=u-path-only" else "OK nt b=u-rawpath"
+        | some u =>
+          let form := match raw with | 47 :: _ => "origin" | _ => "absolute"
+          if u.rawPath = [] then s!"OK nt b=u-{form}-path-only" else s!"OK nt b=u-{form}-rawpath"
 
 /-! ### r — routing through the real PatternRouter -/
 
@@ -306,12 +319,16 @@ def handleRoute (table method kind x : String) (out : List String) : String :=
           let entries := specEntries specT
           let allWf := entries.all fun e => wfB e.2.2
           -- the path the request carries: for `req` the target's path text, otherwise the chosen path
-          let reqPath := if kind = "req" then beforeQuery xb else pathChoice u
+          let reqPath := match kind, xb with
+            | "req", 47 :: _ => beforeQuery xb
+            | _, _ => pathChoice u
           let parseOk := (specEntries modelT).map (fun e => (e.1, e.2.2)) == entries.map (fun e => (e.1, e.2.2))
           match (if allWf then specJudge entries meth reqPath res else none) with
           | some why => s!"VIOL route {why}"
           | none =>
-            if ¬ parseOk then "DIFF model=parse (a grammar-generated template was parsed to a different AST)"
+            if ¬ (parsed.all fun p => match p with | some t => shapeB t | none => true) then
+              "DIFF model=shape (the parser returned an AST outside the proved domain)"
+            else if ¬ parseOk then "DIFF model=parse (a grammar-generated template was parsed to a different AST)"
             else if mC ≠ mA then s!"DIFF model-internal compiled={mC} ast={mA}"
             else if res ≠ mC then s!"DIFF model={mC}"
             else
